@@ -2639,3 +2639,8 @@ mod tests {
         }
     }
 }
+
+// Verification hook (/verif): contract proof harnesses; compiled only by `cargo kani`.
+#[cfg(kani)]
+#[path = "/verif/kani/spillable.rs"]
+mod verif_kani;
